@@ -1564,9 +1564,12 @@ func (d *DFA) getStartState(cache *DFACache, haystack []byte, pos int, anchored 
 	// This handles the case where another goroutine may have inserted it
 	insertedState, existed, err := cache.GetOrInsert(key, state)
 	if err != nil {
-		// Cache full - return the computed state anyway
-		// (it won't be cached, but search can continue)
-		return state
+		// Cache full: the start state does not fit. It must not be handed out
+		// uncached - its ID is InvalidState, whose table offset is 0, so the search
+		// loops would read (and determinize would fill) the reserved row 0 on its
+		// behalf and every later uncached state would inherit those transitions.
+		// nil makes the caller fall back to the NFA for this search.
+		return nil
 	}
 
 	// Register in ID lookup map (only if we inserted a new state)
@@ -2109,7 +2112,7 @@ func (d *DFA) getStartStateForReverse(cache *DFACache, haystack []byte, end int)
 
 	insertedState, existed, err := cache.GetOrInsert(key, state)
 	if err != nil {
-		return state
+		return nil // does not fit; see getStartState
 	}
 
 	if !existed {
